@@ -14,7 +14,8 @@ package assurancesdrv
 // of what is verified).  It only executes and records; spec/stf/Assurances_Trace.tla judges.
 //
 // Case: {"tau":t,"rho":[[report id,slot] per core],"blocks":[{"slot":s,"judge":[ids],
-//        "as":[{"v":idx,"f":octet,"anchor":"ok|bad","sig":kind}],"place":[[core,id]]}]}
+//        "as":[{"v":idx,"f":octet | [octets],"anchor":"ok|bad","sig":kind}],"place":[[core,id]]}]}
+// (a sparse "rho" may be given as {"core":[id,slot]} for the full-size configuration, VF_MODE=full)
 // sig kinds: ok | ctx (other context string) | key (next validator's key) | bits (other bitfield)
 // | parent (other anchor) | nohash (payload not hashed) | zero (64 zero bytes).
 // After an accepted block the posterior rho becomes the prior one the way ChainState.StateCommit
@@ -29,6 +30,7 @@ import (
 	"encoding/json"
 	"os"
 	"sort"
+	"strconv"
 	"testing"
 
 	"golang.org/x/crypto/blake2b"
@@ -51,8 +53,8 @@ type world struct {
 
 func newWorld(seed uint64) *world {
 	w := &world{seed: seed, ids: map[types.WorkPackageHash]int{}}
-	for i := 0; i < 8; i++ {
-		s := sha256.Sum256([]byte{byte(seed), byte(seed >> 8), byte(i), 'x', '0', '1'})
+	for i := 0; i < types.ValidatorsCount+2; i++ {
+		s := sha256.Sum256([]byte{byte(seed), byte(seed >> 8), byte(i), byte(i >> 8), 'x', '0', '1'})
 		priv := ed25519.NewKeyFromSeed(s[:])
 		var pub types.Ed25519Public
 		copy(pub[:], priv.Public().(ed25519.PublicKey))
@@ -101,7 +103,29 @@ func reportHash(r *types.WorkReport) types.WorkReportHash {
 	return types.WorkReportHash(blake2b.Sum256(b))
 }
 
-func (w *world) signAssurance(v int, anchor types.HeaderHash, f byte, kind string) types.Ed25519Signature {
+func octets(v any) []byte {
+	if a, ok := v.([]any); ok {
+		out := make([]byte, len(a))
+		for i, x := range a {
+			out[i] = byte(vfd.I(x))
+		}
+		return out
+	}
+	out := make([]byte, types.AvailBitfieldBytes)
+	out[0] = byte(vfd.I(v))
+	return out
+}
+
+// natural-number prefix of a sequence length (general compact encoding, lengths below 2^14)
+func lenPrefix(n int) []byte {
+	if n < 128 {
+		return []byte{byte(n)}
+	}
+	return []byte{0x80 | byte(n>>8), byte(n)}
+}
+
+func (w *world) signAssurance(v int, anchor types.HeaderHash, fIn []byte, kind string) types.Ed25519Signature {
+	f := append([]byte{}, fIn...)
 	var sig types.Ed25519Signature
 	ctx := "jam_available"
 	signer := v % types.ValidatorsCount
@@ -114,11 +138,11 @@ func (w *world) signAssurance(v int, anchor types.HeaderHash, f byte, kind strin
 	case "key":
 		signer = (v + 1) % types.ValidatorsCount
 	case "bits":
-		f ^= 1
+		f[0] ^= 1
 	case "parent":
 		payloadAnchor[0] ^= 0xFF
 	}
-	body := append(append([]byte{}, payloadAnchor[:]...), f)
+	body := append(append([]byte{}, payloadAnchor[:]...), f...)
 	var msg []byte
 	if kind == "nohash" {
 		msg = append([]byte(ctx), body...)
@@ -191,9 +215,17 @@ func runCase(out *vfd.Out, w *world, c map[string]any) {
 	}
 	tau := types.TimeSlot(vfd.I(c["tau"]))
 	rho := make(types.AvailabilityAssignments, C)
-	for i, p := range pairs(c["rho"]) {
-		if i < C && p[0] > 0 {
-			rho[i] = &types.AvailabilityAssignment{Report: w.report(p[0], i), AssignedSlot: types.TimeSlot(p[1])}
+	if sparse, ok := c["rho"].(map[string]any); ok {
+		for k, x := range sparse {
+			i, _ := strconv.Atoi(k)
+			p := x.([]any)
+			rho[i] = &types.AvailabilityAssignment{Report: w.report(vfd.I(p[0]), i), AssignedSlot: types.TimeSlot(vfd.I(p[1]))}
+		}
+	} else {
+		for i, p := range pairs(c["rho"]) {
+			if i < C && p[0] > 0 {
+				rho[i] = &types.AvailabilityAssignment{Report: w.report(p[0], i), AssignedSlot: types.TimeSlot(p[1])}
+			}
 		}
 	}
 	alpha := make(types.AuthPools, C)
@@ -251,16 +283,18 @@ func runCase(out *vfd.Out, w *world, c map[string]any) {
 		sort.Slice(dis.Verdicts, func(a, b int) bool { return bytes.Compare(dis.Verdicts[a].Target[:], dis.Verdicts[b].Target[:]) < 0 })
 
 		// assurances extrinsic as wire bytes
-		wire := []byte{byte(len(asIn))}
+		wire := lenPrefix(len(asIn))
 		for _, a := range asIn {
-			v, f := vfd.I(a["v"]), byte(vfd.I(a["f"]))
+			v, f := vfd.I(a["v"]), octets(a["f"])
+			a["f"] = vfd.B(f)
 			anchor := parent
 			if vfd.S(a["anchor"]) != "ok" {
 				anchor = other
 			}
 			sig := w.signAssurance(v, anchor, f, vfd.S(a["sig"]))
 			wire = append(wire, anchor[:]...)
-			wire = append(wire, f, byte(v), byte(v>>8))
+			wire = append(wire, f...)
+			wire = append(wire, byte(v), byte(v>>8))
 			wire = append(wire, sig[:]...)
 		}
 
@@ -344,7 +378,11 @@ func runCase(out *vfd.Out, w *world, c map[string]any) {
 
 func TestVerifAssurances(t *testing.T) {
 	logger.ConfigureLogger("main", logger.LoggerConfig{Level: "FATAL", Enabled: false})
-	types.SetTinyMode()
+	if vfd.Env("VF_MODE", "tiny") == "full" {
+		types.SetFullMode()
+	} else {
+		types.SetTinyMode()
+	}
 	f, err := os.Open(vfd.Env("VF_CASES", "cases.ndjson"))
 	if err != nil {
 		t.Fatal(err)
